@@ -458,6 +458,20 @@ def check_trace(err, root, target, where):
         # (skipped when a truncated Spec line could stand for several specs: its position is then unreliable)
         raise Mismatch('innermost-target', '%s: the innermost failing spec %s received %s but the trace shows target %r:\n%s'
                        % (where, fmtval(innermost.spec, 0)[:80], fmtval(innermost.target, 0)[:80], shown_target, show))
+    # P3b: nesting depth.  A level is printed one bar deeper for every branch point above it on the failing path
+    # (a branch point = a spec with two or more failed children, or one that is not its last child).
+    def branch_point(n):
+        failed_ = [c for c in n.children if c.exc is not None]
+        return len(failed_) >= 2 or bool(failed_ and failed_ != [n.children[-1]])
+    if not ambiguous:
+        depth_ = 0
+        for k_, n in enumerate(path):
+            got_d = parsed[positions[k_]][0]
+            if got_d != depth_:
+                raise Mismatch('path-depth', '%s: the spec %s lies below %d branch point(s) of the failing path but is printed at '
+                               'depth %d:\n%s' % (where, fmtval(n.spec, 0)[:80], depth_, got_d, show))
+            if branch_point(n):
+                depth_ += 1
     # P6: attempted branches of branch points on the path, with the errors that ended them
     for n in path:
         failed = [c for c in n.children if c.exc is not None]
@@ -476,6 +490,22 @@ def check_trace(err, root, target, where):
             if not at:
                 raise Mismatch('branch-missing', '%s: the attempted branch %s of %s (ended by %s) is not shown as a branch:\n%s'
                                % (where, full[:80], type(n.spec).__name__, exc_line(c.exc)[:80], show))
+            # inside an abandoned branch the levels down to where ITS error was raised are listed in order
+            inner, x_ = [c], c
+            while True:
+                nx_ = [y for y in x_.children if y.exc is c.exc]
+                if not nx_:
+                    break
+                x_ = nx_[-1]
+                inner.append(x_)
+            pos_ = at[0] - 1
+            for y in inner:
+                fy = fmtval(y.spec, 0)
+                hit = [i for i, p in spec_lines if i > pos_ and shown_matches(p[3], fy)]
+                if not hit:
+                    raise Mismatch('branch-inner-order', '%s: inside the abandoned branch %s the level %s is not listed (in order):\n%s'
+                                   % (where, full[:60], fy[:60], show))
+                pos_ = hit[0]
             want = exc_line(c.exc)
             if not any(p[2] == 'error' and ADDR.sub('', p[3]) == ADDR.sub('', want) and i > at[0] for i, p in enumerate(parsed)):
                 raise Mismatch('branch-error-missing', '%s: the error that ended branch %s (%s) is not shown:\n%s'
